@@ -493,17 +493,26 @@ func (d decoder) name(s *cryptobyte.String) (string, error) {
 
 func (d decoder) nameLabels(s *cryptobyte.String) ([]string, error) {
 	var labels []string
+	// start is the address of the first byte of the segment being read. RFC
+	// 1035, Section 4.1.4: a compression pointer refers to a prior occurrence
+	// of a name. Requiring every pointer to point strictly before the segment
+	// it appears in rules out pointer loops.
+	var start uintptr
+	if !s.Empty() {
+		start = uintptr(unsafe.Pointer(&(*s)[0]))
+	}
+	total := 0
 	for {
 		for !s.Empty() && (*s)[0]&0xc0 == 0xc0 { // pointer
-			current := uintptr(unsafe.Pointer(&(*s)[0]))
 			var offset uint16
 			if !s.ReadUint16(&offset) {
 				return nil, ErrDecodeError
 			}
 			offset &= 0x3fff
-			if int(offset) >= len(d.raw) || uintptr(unsafe.Pointer(&d.raw[offset])) >= current {
+			if int(offset) >= len(d.raw) || uintptr(unsafe.Pointer(&d.raw[offset])) >= start {
 				return nil, ErrDecodeError
 			}
+			start = uintptr(unsafe.Pointer(&d.raw[offset]))
 			ss := cryptobyte.String(d.raw[offset:])
 			s = &ss
 		}
@@ -513,6 +522,10 @@ func (d decoder) nameLabels(s *cryptobyte.String) ([]string, error) {
 		}
 		if len(name) == 0 {
 			break
+		}
+		// RFC 1035, Section 2.3.4: names are limited to 255 octets.
+		if total += len(name) + 1; total > 255 {
+			return nil, ErrDecodeError
 		}
 		labels = append(labels, string(name))
 	}
